@@ -185,7 +185,8 @@ def judge(case, got, exp):
                 return {"kind": "zero-distance-not-maximal", "s": s, "max": max(S)}
         if case["mode"] == "default" and not all(-1e-12 <= s <= 1 + 1e-12 for s in S):
             return {"kind": "out-of-range", "s": S}
-    elif not case.get("keep_sign") and not all(-1e-12 <= s <= 1 + 1e-12 for s in S):
+    elif not all(-1e-12 <= s <= 1 + 1e-12 for s in S):
+        # (with keep_sign a non-negative input x is mapped to f(x) - f(0), which lies in [0, 1) as well)
         return {"kind": "out-of-range", "s": S}
     if not case.get("keep_sign"):
         for x, s in zip(X, S):
